@@ -78,8 +78,18 @@ EXTRA_ATOMS = [
     A("oalrow", "{t}_Row3 {p}o3[2];", [("{p}o3", "arr")], support="struct __attribute__((aligned(32))) {t}_V3 {{ char c; }}; typedef struct {t}_V3 {t}_Row3[3];"),
     A("i128x2d", "__int128 {p}o4[2][2];", [("{p}o4", "arr")]),
     A("ldx2d", "long double {p}o5[3][2];", [("{p}o5", "arr")]),
+    # pointers to functions with calling conventions Rust cannot / can name (the unsupported ones become pointer-sized blobs)
+    A("fpvec", "void (__attribute__((vectorcall)) *{p}fv)(int);", [("{p}fv", "agg")]),
+    A("fpmsv", "int (__attribute__((ms_abi)) *{p}fw)(int, ...);", [("{p}fw", "agg")]),
+    A("fppm", "void (__attribute__((preserve_most)) *{p}fm)(int);", [("{p}fm", "agg")]),
+    A("fpms", "int (__attribute__((ms_abi)) *{p}fs)(int);", [("{p}fs", "agg")]),
+    # Manually-tier element types inside small arrays (C08): nested arrays past the 32 limit, arrays of records holding 13-parameter pointers
+    A("arr2x40", "int {p}x40[2][40];", [("{p}x40", "arr")]),
+    A("arrfn13", "struct {t}_H13 {p}h13[2];", [("{p}h13", "arr")], support="struct {t}_H13 {{ int (*f)(int, int, int, int, int, int, int, int, int, int, int, int, int); }};"),
+    A("arrarr33", "struct {t}_A33 {p}a33s[2];", [("{p}a33s", "arr")], support="struct {t}_A33 {{ char big[33]; }};"),
 ]
 OVERALIGNED_ARRAY_ATOMS = ["oal1d", "oal2d", "oalrow", "i128x2d", "ldx2d"]
+FNPTR_ABI_ATOMS = ["fpvec", "fpmsv", "fppm", "fpms"]
 ATOM = {a.key: a for a in ATOMS + EXTRA_ATOMS}
 
 # record attributes: (key, text before `struct`, attribute after `struct`, text after the declaration)
